@@ -139,5 +139,6 @@ Proof.
     + inversion Hh; subst. left. reflexivity.
     + inversion Hh; subst. left. reflexivity.
     + inversion Hh; subst. left. reflexivity.
+    + inversion Hh; subst. left. reflexivity.
   - pose proof (HI.handle_inv cfg pol user sigma r Hinv) as Hi. rewrite Hh in Hi. exact Hi.
 Qed.
